@@ -1103,8 +1103,25 @@ def scenario(c, W, exe_lines, spec, tag, stats):
         stats["oracle_edge"] += sum(1 for v in orc.values() if v == "edge")
         c.count(("oracle", col, spec["boundary"], tuple(spec["nghost"]), min(nyes, 12)), nontrivial=nyes >= 2)
 
-    # ---- tie 1: search + shuffle  (model line index recorded)
+    # ---- tie 0: the ghost boxes themselves (model `ghostBox` = reb_boundary_get_ghostbox, boundary.c:177-229)
     checks = []
+    nr_ = spec.get("nroot", [1, 1, 1])
+    li_g = len(exe_lines)
+    exe_lines.append(" ".join(["G", spec["boundary"], d2h(spec["box"] * nr_[0]), d2h(spec["box"] * nr_[1]), d2h(spec["box"] * nr_[2]),
+                               d2h(simA.ri_sei.OMEGA), d2h(simA.t)]))
+
+    def chk0(out, li_g=li_g):
+        got = out[li_g].split()
+        want = [h for g in tabhex for h in g]
+        if got != want:
+            bad = [k for k in range(min(len(got), len(want))) if got[k] != want[k]]
+            c.corr_break("reb_boundary_get_ghostbox (%s, t=%r): model and code differ in %d of %d numbers, first at box %d component %d: model %s code %s (%s)" % (
+                spec["boundary"], simA.t, len(bad) + abs(len(got) - len(want)), len(want), bad[0] // 6 if bad else -1, bad[0] % 6 if bad else -1,
+                got[bad[0]] if bad else "-", want[bad[0]] if bad else "-", tag), dict(spec=spec))
+            stats["tie_fail"] += 1
+        stats["tie_ghostbox"] = stats.get("tie_ghostbox", 0) + 1
+    checks.append(chk0)
+    # ---- tie 1: search + shuffle  (model line index recorded)
     ring = [tabhex[(i + 1) * 9 + (j + 1) * 3 + (k + 1)] for (i, j, k) in images(spec)]
     if col in ("direct", "line"):
         li = len(exe_lines)
